@@ -123,6 +123,10 @@ type SourceScript struct {
 	// "~late:<name>.ackrecv", which sorts after every other alternative (the engine's ack sender stays blocked in Send
 	// until nothing else can run).
 	LateAckRecv bool
+	// AckSendFaults makes every ack the ENGINE sends to the plugin a pending event "<name>.acksend" with the answers
+	// {ok, fail}: "fail" is a transient transport failure - Send returns an error and the plugin never sees that request
+	// (what a gRPC stream does under a momentary broken pipe); the engine is expected to retry.
+	AckSendFaults bool
 	// IdleBatches lists batch indices whose FIRST read is an "~~idle:" gate: by default the source produces that batch only
 	// once the engine has no timer left to fire (a quiet period longer than any back-off / retry window).
 	IdleBatches []int
@@ -738,7 +742,7 @@ func (p *Plugins) NewDispenser(logger log.CtxLogger, name string, _ string) (con
 	if !hasSrc && !hasDst {
 		return nil, fmt.Errorf("%w: %s", plugin.ErrPluginNotFound, name)
 	}
-	return builtin.NewDispenser(plugin.FullName("builtin:"+name+"@v0.0.0"), logger,
+	d := builtin.NewDispenser(plugin.FullName("builtin:"+name+"@v0.0.0"), logger,
 		func() pconnector.SpecifierPlugin { return specifier{name} },
 		func() pconnector.SourcePlugin {
 			if src == nil {
@@ -751,5 +755,71 @@ func (p *Plugins) NewDispenser(logger log.CtxLogger, name string, _ string) (con
 				return nil
 			}
 			return dst
-		}), nil
+		})
+	if hasSrc && src.S.AckSendFaults {
+		return ackFaultDispenser{Dispenser: d, w: p.W, name: name}, nil
+	}
+	return d, nil
+}
+
+// ackFaultDispenser wraps the built-in dispenser: the source plugin it hands out uses the REAL in-memory stream, but
+// every ack request the engine sends on it first passes the gate "<name>.acksend" (answers ok / fail).
+type ackFaultDispenser struct {
+	connectorPlugin.Dispenser
+	w    *verifkit.World
+	name string
+}
+
+func (d ackFaultDispenser) DispenseSource() (connectorPlugin.SourcePlugin, error) {
+	sp, err := d.Dispenser.DispenseSource()
+	if err != nil {
+		return nil, err
+	}
+	return &ackFaultSource{SourcePlugin: sp, w: d.w, name: d.name}, nil
+}
+
+type ackFaultSource struct {
+	connectorPlugin.SourcePlugin
+	w    *verifkit.World
+	name string
+}
+
+type ackFaultStream struct {
+	pconnector.SourceRunStream
+	w    *verifkit.World
+	name string
+}
+
+func (s *ackFaultSource) NewStream() pconnector.SourceRunStream {
+	return &ackFaultStream{SourceRunStream: s.SourcePlugin.NewStream(), w: s.w, name: s.name}
+}
+
+func (s *ackFaultSource) Run(ctx context.Context, stream pconnector.SourceRunStream) error {
+	if fs, ok := stream.(*ackFaultStream); ok {
+		return s.SourcePlugin.Run(ctx, fs.SourceRunStream)
+	}
+	return s.SourcePlugin.Run(ctx, stream)
+}
+
+func (s *ackFaultStream) Client() pconnector.SourceRunStreamClient {
+	return ackFaultClient{SourceRunStreamClient: s.SourceRunStream.Client(), w: s.w, name: s.name}
+}
+
+type ackFaultClient struct {
+	pconnector.SourceRunStreamClient
+	w    *verifkit.World
+	name string
+}
+
+func (c ackFaultClient) Send(req pconnector.SourceRunRequest) error {
+	if len(req.AckPositions) > 0 {
+		switch c.w.Gate(nil, c.name+".acksend", "ok", "fail") {
+		case "fail":
+			c.w.Log(c.name, "acksendfail", PosIndex(req.AckPositions[0]), "")
+			return cerrors.New("verif: transient transport failure while sending the acknowledgment")
+		case verifkit.AnsAbort:
+			return cerrors.New("verif: execution over")
+		}
+	}
+	return c.SourceRunStreamClient.Send(req)
 }
